@@ -591,8 +591,11 @@ func c25sJudge(raw []byte, specs map[string]*c25sSpec) (v c25sVerdict) {
 				v.Truncated = true
 				v.Msgs = append(v.Msgs, m)
 			} else {
+				if strings.HasPrefix(rej.Class, http1.BodyPrefix) {
+					v.Msgs = append(v.Msgs, m) // the head is fine: what follows it is this message's body span
+				}
 				after := "at-start-of-connection"
-				if len(v.Msgs) > 0 {
+				if pos > 0 {
 					after = "after-request"
 				}
 				id := m.ID
@@ -690,6 +693,8 @@ func c25sSelfTest() error {
 		{"cut short", post("s1f1z", 3, f1[:3]), "backend-stream:body-differs:cut-short-but-framed-as-complete", false},
 		{"unknown marker", strings.Replace(get, "s1f0z", "s9f9z", -1), "backend-stream:request-without-known-marker", false},
 		{"garbage after request", get + "econd HTTP/1.1\r\n\r\n", "backend-stream:not-well-formed:", false},
+		{"request after truncated chunked body", get + fmt.Sprintf("POST /c25s/s2uz HTTP/1.1\r\nHost: %s\r\nTransfer-Encoding: chunked\r\nX-Id: s2uz\r\n\r\n4\r\nabcd\r\n", host) + get, "backend-stream:request-after-truncated-body", false},
+		{"truncated chunked last", get + fmt.Sprintf("POST /c25s/s2uz HTTP/1.1\r\nHost: %s\r\nTransfer-Encoding: chunked\r\nX-Id: s2uz\r\n\r\n4\r\nabcd\r\n", host), "", true},
 	} {
 		v := c25sJudge([]byte(t.raw), specs)
 		got := ""
@@ -893,6 +898,14 @@ func (f *c25sFamily) run(r *vkit.Run, srv *e2e.Server, replay *c25sCase) {
 		for _, fe := range []string{"h1", "h2"} {
 			if r.Counter("stream_shape_early_reply_then_abort_then_followup_forwarded_"+fe) == 0 {
 				r.Inconclusive("stream family: on frontend " + fe + " no upload was aborted after bfe had the backend's early reply and followed by a forwarded request")
+			}
+		}
+		if os.Getenv("VERIF_DEBUG_C25S_CELLS") == "" {
+			for _, k := range []string{"abort_fin", "abort_half-close", "abort_rst", "abort_rst-stream", "abort_conn-close", "abort_late",
+				"stage_before-body", "stage_mid-body", "stage_mid-chunk-size", "stage_mid-chunk-data", "stage_chunk-boundary"} {
+				if r.Counter("stream_shape_by_"+k) == 0 {
+					r.Inconclusive("stream family: the shape (early reply, abort, forwarded follow-up) never occurred with " + k)
+				}
 			}
 		}
 		for _, k := range []string{"stream_backend_connections_reused", "stream_backend_connections_ending_in_truncated_message"} {
